@@ -6,7 +6,7 @@ import os
 VERIF = os.path.dirname(os.path.dirname(os.path.abspath(__file__)))
 
 NOTE = ("Trusted base: Coq 8.16.1 kernel/coqc, vm_compute (no native_compute); no axioms (Print Assumptions "
-        "'Closed under the global context' checked every run); tools/gen_tables.py translator; extraction with "
+        "'Closed under the global context' checked every run); the two-stage tools/gen_tables.py + tools/probe.py translator (static reading of the source cross-checked by probing the compiled code); extraction with "
         "ExtrOcamlBasic only + ocaml/main.ml; the Rust correspondence harness and Python comparers; spec-side "
         "definitions (MPD tokenizer, filter grammar, session rules, names) written from memory; Rust std, bytes, nom, "
         "tokio, chrono modelled not verified.")
